@@ -102,7 +102,7 @@ def run(run):
                         "Constellation rejected by Trace_Modem clause %s" % clause)
     run.sample({k: (v if not isinstance(v, list) else v[:8]) for k, v in evs[0].items()})
     run.sample(gev[100])
-    if not mism and not run.only:
+    if not run.only and not [m for m in mism if m[1] <= 12]:        # the self-test slice (the first 12 events) was accepted
         def corrupt(ev2):
             i = next(i for i, e in enumerate(ev2) if e["ev"] == "Scheme" and e["b"] >= 2)
             ev2[i]["labels"] = [ev2[i]["labels"][1], ev2[i]["labels"][0]] + ev2[i]["labels"][2:]
